@@ -8,14 +8,19 @@
 (*    cannot influence the outcome of one iteration (one action per pop);      *)
 (*  - unreachable states are not removed.                                      *)
 EXTENDS DfaUniverse
-VARIABLES D, P, W
-vars == <<D, P, W>>
+VARIABLES D, P, W, stage
+vars == <<D, P, W, stage>>
 
 MinOf(A, B) == IF Cardinality(A) <= Cardinality(B) THEN A ELSE B
 
-Init == /\ D \in AllDfas
-        /\ P = {D.F, Q \ D.F} \ {{}}
-        /\ W = {<<MinOf(D.F, Q \ D.F), a>> : a \in S}
+Init == D = DummyDfa /\ P = {} /\ W = {} /\ stage = 0
+PickF == /\ stage = 0 /\ stage' = 1
+         /\ \E F \in SUBSET Q : D' = [DummyDfa EXCEPT !.F = F]
+         /\ UNCHANGED <<P, W>>
+PickD == /\ stage = 1 /\ stage' = 2
+         /\ D' \in DfasWithF(D.F)
+         /\ P' = {D.F, Q \ D.F} \ {{}}
+         /\ W' = {<<MinOf(D.F, Q \ D.F), a>> : a \in S}
 
 SplitIn(Wb, a, B) == {p \in B : Delta(D, p, a) \in Wb}
 
@@ -25,21 +30,23 @@ StepHop(wa) ==
       splits == {B \in P : Cardinality(B) > 1 /\ SplitIn(Wb, a, B) # {} /\ SplitIn(Wb, a, B) # B}
   IN /\ P' = (P \ splits) \cup UNION {{SplitIn(Wb, a, B), B \ SplitIn(Wb, a, B)} : B \in splits}
      /\ W' = (W \ {wa}) \cup {<<MinOf(SplitIn(Wb, a, B), B \ SplitIn(Wb, a, B)), b>> : B \in splits, b \in S}
-     /\ UNCHANGED D
+     /\ UNCHANGED <<D, stage>>
 
-Next == \E wa \in W : StepHop(wa)
+Pop == stage = 2 /\ \E wa \in W : StepHop(wa)
+Next == PickF \/ PickD \/ Pop
 Spec == Init /\ [][Next]_vars /\ WF_vars(Next)
 
-Done == W = {}
+Done == stage = 2 /\ W = {}
 M == BlockDfa(D, P)
 
-PartitionInv == /\ IsPartition(P, Q)
+PartitionInv == stage = 2 =>
+                /\ IsPartition(P, Q)
                 /\ \A B \in P : B \subseteq D.F \/ B \cap D.F = {}
                 (* never separates equivalent states *)
                 /\ \A C \in NerodePartition(D) : \E B \in P : C \subseteq B
 DoneIsNerode == Done => P = NerodePartition(D)
 DoneResultOk == Done => ResultOk(D, M)
-InputUnchanged == [][D' = D]_vars
+InputUnchanged == [][stage = 2 => D' = D]_vars
 Terminates == <>Done
 (* variant: each step either splits a block or shrinks W *)
 Measure == (Cardinality(Q) - Cardinality(P)) * (Cardinality(Q) * Cardinality(S) * 4 + 1) + Cardinality(W)
